@@ -1,0 +1,28 @@
+//go:build verif
+
+package memfs
+
+// Contracts for the deductive verifier in /verif (govc): thread-modular clauses of C06.
+// They are active only in T-mode, where every field guarded by a mutex is forgotten when that
+// mutex is acquired (another goroutine may have changed it since the unlocked path walk).
+// Comments only; compiled only with the build tag "verif".
+
+// An exclusive create inserts a name only after seeing the slot empty under the write lock it
+// still holds: of several concurrent creates of one name exactly one succeeds, no node is lost.
+//@ func (*MemFS).createDir
+//@   requires[C06] parent.children[name] == nil
+//@ func (*MemFS).createFile
+//@   requires[C06] parent.children[name] == nil
+//@ func (*MemFS).createSymlink
+//@   requires[C06] parent.children[name] == nil
+
+//@ func (*MemFS).Link
+//@   at call nParent.addChild assert[C06] callrecv.children[arg0] == nil
+
+// Remove and Rename act on the entries they looked up: the entry must still be that node when
+// it is unlinked, and the destination slot must still hold what the walk saw.
+//@ func (*MemFS).Remove
+//@   at call parent.removeChild assert[C06] callrecv.children[arg0] == result(vfs.searchNode, 1)
+//@ func (*MemFS).Rename
+//@   at call nParent.addChild assert[C06] callrecv.children[arg0] == result("vfs.searchNode#1", 1)
+//@   at call oParent.removeChild assert[C06] callrecv.children[arg0] == result("vfs.searchNode#0", 1)
